@@ -147,6 +147,7 @@ def function_locals(fn):
 
 
 CANON_HEADS = {"numpy": "np", "typhon.constants": "constants"}
+ABS_HEAD = "__abs__"          # `__abs__.pkg.mod.name`: an absolute dotted name (only produced for helpers of other modules)
 
 
 class _CanonNames(ast.NodeTransformer):
@@ -908,8 +909,109 @@ class Inliner:
 # ------------------------------------------------------------------------------------------------
 # driver
 
-def prepare_function(fn, module_tree, module_name, keep=(), is_glue=None, matrix=False, table=None):
-    """all passes, in order, on a COPY of the module-level function `fn`.  Returns (function, [expanded helpers])."""
+_SAFE_BUILTINS = {"abs", "len", "float", "int", "range", "tuple", "list", "any", "all", "isinstance", "map", "min", "max",
+                  "ValueError", "Exception", "RuntimeError", "TypeError", "True", "False", "None"}
+
+
+class _ForeignHelpers:
+    """helper functions IMPORTED from another module of the repository.  A foreign helper is brought into the
+    calling module as a *closed* function: its own module's aliases are resolved with ITS module table (numpy /
+    constants become the canonical `np.` / `constants.`), and every other name it reads must be a parameter, a
+    local, a harmless builtin, or another function of its module that can be closed the same way.  Anything else
+    (module-level constants, classes, state of the other module) is a Refusal — its globals are not ours."""
+
+    def __init__(self, load_module, matrix, keep_targets=()):
+        self.load, self.matrix = load_module, matrix
+        self.keep_targets = set(keep_targets)
+        self.closed = {}          # dotted target -> local (mangled) name
+        self.defs = {}            # mangled name -> FunctionDef
+        self.failed = {}
+
+    def local_name(self, target, stack=()):
+        if target in self.closed:
+            return self.closed[target]
+        if target in stack:
+            raise Refusal(f"recursive helper {target}")
+        modname, func = target.rsplit(".", 1)
+        got = self.load(modname) if self.load else None
+        if got is None:
+            return None
+        tree, tab = got
+        defs = [st for st in tree.body if isinstance(st, ast.FunctionDef) and st.name == func]
+        if not defs or tab.get(func) != target:
+            return None
+        h = copy.deepcopy(defs[-1])
+        h = canon_numpy(canonical_names(h, tab, modname), self.matrix)
+        loc = function_locals(h)
+        mangled = "_" + target.replace(".", "_")
+
+        class Absolute(ast.NodeTransformer):
+            """third-party names the helper reaches through ITS imports are spelled absolutely (`__abs__.scipy.linalg.inv`):
+            the matrix translator resolves that spelling without consulting the caller's imports"""
+
+            def rewrite(self, node):
+                parts = dotted_parts(node)
+                if parts is None or parts[0] in loc or parts[0] in CANON_HEADS.values() or not tab.get(parts[0]):
+                    return None
+                full = ".".join([tab[parts[0]]] + parts[1:])
+                if full.split(".")[0] in ("typhon", modname.split(".")[0]):
+                    return None
+                e = ast.Name(id=ABS_HEAD, ctx=ast.Load())
+                for p_ in full.split("."):
+                    e = ast.Attribute(value=e, attr=p_, ctx=ast.Load())
+                return ast.copy_location(e, node)
+
+            def visit_Attribute(self, node):
+                return (isinstance(node.ctx, ast.Load) and self.rewrite(node)) or self.generic_visit(node)
+
+            def visit_Name(self, node):
+                return (isinstance(node.ctx, ast.Load) and self.rewrite(node)) or node
+        h = Absolute().visit(h)
+        for nd in ast.walk(h):
+            if isinstance(nd, ast.Name) and isinstance(nd.ctx, ast.Load) and nd.id not in loc and nd.id != ABS_HEAD \
+                    and nd.id not in CANON_HEADS.values() and nd.id not in _SAFE_BUILTINS:
+                t2 = tab.get(nd.id)
+                if t2 == f"{modname}.{nd.id}" and any(isinstance(st, ast.FunctionDef) and st.name == nd.id for st in tree.body):
+                    inner = self.local_name(t2, stack + (target,))
+                    if inner is None:
+                        raise Refusal(f"helper {target} calls {t2}, which cannot be brought in")
+                    nd.id = inner
+                else:
+                    raise Refusal(f"helper {target} of another module reads its module-level name {nd.id}")
+        h.name = mangled
+        self.closed[target] = mangled
+        self.defs[mangled] = h
+        return mangled
+
+
+class _CallForeign(ast.NodeTransformer):
+    def __init__(self, table, module_name, local_names, foreign):
+        self.table, self.module, self.locals, self.foreign = table, module_name, local_names, foreign
+
+    def visit_Call(self, node):
+        self.generic_visit(node)
+        parts = dotted_parts(node.func)
+        if parts is None or parts[0] in self.locals or self.table.get(parts[0]) is None:
+            return node
+        target = ".".join([self.table[parts[0]]] + parts[1:])
+        if target.startswith(self.module + ".") or "." not in target or target in self.foreign.keep_targets \
+                or target.split(".")[0] in ("numpy", "scipy", "math", "builtins"):
+            return node
+        try:
+            name = self.foreign.local_name(target)
+        except Refusal as e:
+            self.foreign.failed[target] = str(e)
+            return node
+        if name is not None:
+            node.func = ast.copy_location(ast.Name(id=name, ctx=ast.Load()), node.func)
+        return node
+
+
+def prepare_function(fn, module_tree, module_name, keep=(), is_glue=None, matrix=False, table=None, load_module=None,
+                     keep_targets=()):
+    """all passes, in order, on a COPY of the module-level function `fn`.  Returns (function, [expanded helpers]).
+    load_module: dotted module name -> (ast of the module, its module_table) or None — gives access to helper functions
+    imported from other modules of the repository; keep_targets: dotted names the translator knows itself."""
     table = table if table is not None else module_table(module_tree, module_name)
     fn = copy.deepcopy(fn)
     funcs = {}
@@ -917,24 +1019,33 @@ def prepare_function(fn, module_tree, module_name, keep=(), is_glue=None, matrix
         if isinstance(st, ast.FunctionDef) and table.get(st.name) == f"{module_name}.{st.name}":
             funcs[st.name] = st
     canon = {}
+    foreign = _ForeignHelpers(load_module, matrix, keep_targets)
 
     def canon_func(name):
         if name not in canon:
+            if name in foreign.defs:
+                canon[name] = foreign.defs[name]      # already closed and canonical
+                return canon[name]
             h = copy.deepcopy(funcs[name])
             h = canonical_names(h, table, module_name)
             h = canon_numpy(h, matrix)
+            if load_module:
+                h = _CallForeign(table, module_name, function_locals(h), foreign).visit(h)
             canon[name] = h
         return canon[name]
 
     class Lazy(dict):
         def __contains__(self, key):
-            return key in funcs
+            return key in funcs or key in foreign.defs
 
         def __getitem__(self, key):
             return canon_func(key)
 
     fn = canonical_names(fn, table, module_name)
     fn = canon_numpy(fn, matrix)
+    if load_module:
+        cf = _CallForeign(table, module_name, function_locals(fn), foreign)
+        fn.body = [st if (is_glue and is_glue(st)) else cf.visit(st) for st in fn.body]     # declared glue stays verbatim
     fresh = _Fresh()
     doc, body = _strip_doc(fn.body)
     body = try_else(body)
@@ -952,4 +1063,8 @@ def prepare_function(fn, module_tree, module_name, keep=(), is_glue=None, matrix
     fn.body = doc + collapse_ret(fold_constants(body))
     ast.fix_missing_locations(fn)
     fn._inline_failed = dict(inl.failed)
-    return fn, sorted(set(inl.inlined))
+    for target, why in foreign.failed.items():
+        fn._inline_failed[target.rsplit(".", 1)[-1]] = why
+        fn._inline_failed[target] = why
+    back = {v: k for k, v in foreign.closed.items()}
+    return fn, sorted({back.get(n, n) for n in inl.inlined})
